@@ -508,13 +508,14 @@ outer2:
 
 	defer func() {
 		for _, t := range conn.tracks {
-			layer := t.getLayerInfo()
-			verifhook.At("rtpconn.replaceTracks.loaded", t)
-			layer.limitSid = limitSid
-			if limitSid {
-				layer.wantedSid = 0
-			}
-			t.setLayerInfo(layer)
+			t.updateLayerInfo(func(layer *layerInfo) bool {
+				verifhook.At("rtpconn.replaceTracks.loaded", t)
+				layer.limitSid = limitSid
+				if limitSid {
+					layer.wantedSid = 0
+				}
+				return true
+			})
 		}
 	}()
 
